@@ -26,7 +26,8 @@
    backoff_wait, model and observer agree on it: Sup/RelCore.v rc_name).
 
    Window hypotheses (sticky observer flags, known findings): W_C02 = w_commit (F20/F21) || w_sdlag (F37) ||
-   w_dup (F25) || w_zombie (F38).  Clauses (1), (3), (4) alone need only w_commit || w_sdlag (C02_core). *)
+   w_dup (F25).  Clauses (1), (3), (4) alone need only w_commit || w_sdlag (C02_core); each of the three flags is
+   necessary (C02_restart_policy_refuted: sdlag; C02_restart_policy_dup_needed: dup). *)
 From Coq Require Import List ZArith NArith Bool.
 From PC.Base Require Import Assoc.
 From PC.Sup Require Import Model Monitors LemC02 RelC02defs RelC02e.
@@ -77,6 +78,15 @@ Theorem C02_restart_policy_refuted : exists cs ord evs s,
   accept (init cs ord) evs = Some s /\ holds_C02 cs evs = false /\ holds cs mon_C02_core evs = false.
 Proof. exact C02_refuted. Qed.
 Print Assumptions C02_restart_policy_refuted.
+
+(* the dup window is necessary for clause (2): StartProcess + Run() create two live instances of a probed process, a fatal
+   probe result then records a stop request (stop_pending) on the launched one without isStopped; 23 accepted events,
+   only w_dup raised *)
+Theorem C02_restart_policy_dup_needed : exists cs ord evs s,
+  accept (init cs ord) evs = Some s /\ holds_C02 cs evs = false /\
+  w_commit (final_obs cs evs) = false /\ w_sdlag (final_obs cs evs) = false /\ w_zombie (final_obs cs evs) = false.
+Proof. exact C02_dup_needed. Qed.
+Print Assumptions C02_restart_policy_dup_needed.
 
 (* non-vacuity: an accepted history of 28 events (on_failure, max_restarts 1: exit 1, back-off, relaunch,
    exit 2, gives up) that stays out of every window and exercises all four clauses *)
